@@ -26,6 +26,11 @@ Definition end_lc (pm : str) : nat * nat :=
 Definition meet_of (p m q : str) : list (nat * nat) :=
   lines_meeting (p ++ m ++ q) (blen p) (blen p + blen m).
 Definition texts_of (p m q : str) : list str := map (text_of (p ++ m ++ q)) (meet_of p m q).
+Definition first_line (fx : fixes) (p m q : str) : str :=
+  match texts_of p m q with
+  | x :: _ => x
+  | [] => if fix_eoi_line fx then the_line p (m ++ q) else []
+  end.
 Definition last_text (l : list str) : option str :=
   match tl l with [] => None | x :: r => Some (last r x) end.
 
@@ -59,8 +64,8 @@ Lemma new_from_span_correct fx p m q msg :
   Ok {| e_location := ISpan (blen p, blen p + blen m);
         e_line_col := LSpan (spec_line_col p) (end_lc (p ++ m));
         e_path := None;
-        e_line := display (span_vis m) (hd [] (texts_of p m q));
-        e_continued := if fx then option_map visualize_whitespace (last_text (texts_of p m q))
+        e_line := display (span_vis m) (first_line fx p m q);
+        e_continued := if fix_continued fx then option_map visualize_whitespace (last_text (texts_of p m q))
                        else if span_vis m then last_text (texts_of p m q)
                        else option_map visualize_whitespace (last_text (texts_of p m q));
         e_message := msg |}.
@@ -78,6 +83,13 @@ Proof.
     destruct (removelast_decomp (p ++ m)) as (x & Ex). rewrite Ex at 1. rewrite <- app_assoc.
     rewrite line_col_correct. reflexivity. }
   rewrite Eend. cbn [bind]. rewrite <- Eb. rewrite lines_correct. cbn [bind].
+  assert (Hfl : match texts_of p m q with
+                | x :: _ => Ok x
+                | [] => if fix_eoi_line fx then line_of (p ++ m ++ q) (blen p) else Ok []
+                end = Ok (first_line fx p m q)).
+  { unfold first_line. destruct (texts_of p m q); [|reflexivity].
+    destruct (fix_eoi_line fx); [apply line_of_correct|reflexivity]. }
+  unfold texts_of, meet_of in Hfl. rewrite Hfl. cbn [bind].
   unfold span_as_str, rslice. cbn [fst snd]. rewrite slice_app3. cbn [bind].
   rewrite span_vis_model. rewrite line_col_correct. cbn [bind]. reflexivity.
 Qed.
@@ -137,14 +149,14 @@ Theorem render_span_no_panic fx p m q msg :
   exists out, render_span fx (p ++ m ++ q) (blen p, blen p + blen m) msg = Ok out.
 Proof.
   unfold render_span. rewrite new_from_span_correct. cbn [bind].
-  set (cont := if fx then _ else _).
+  set (cont := if fix_continued fx then _ else _).
   destruct (underline_span_ok (ISpan (blen p, blen p + blen m)) None (spec_line_col p) (end_lc (p ++ m))
-              (display (span_vis m) (hd [] (texts_of p m q))) cont msg (spec_col_ge1 p) (end_lc_col_ge2 (p ++ m))) as (u & Hu).
+              (display (span_vis m) (first_line fx p m q)) cont msg (spec_col_ge1 p) (end_lc_col_ge2 (p ++ m))) as (u & Hu).
   unfold format. cbn [e_line_col e_continued]. destruct cont as [cl|] eqn:Ec.
   - (* a continued line exists: the span text is not empty, so the end line is not before the start line *)
     assert (Hm : m <> []).
     { intros ->. subst cont. unfold texts_of in Ec. rewrite (last_text_none_of_tl _ _ (meet_empty_span p q)) in Ec.
-      destruct fx; [|destruct (span_vis [])]; discriminate. }
+      destruct (fix_continued fx); [|destruct (span_vis [])]; discriminate. }
     unfold e_start. cbn [e_line_col fst]. rewrite rsub_ok by (apply end_line_ge; exact Hm). cbn [bind].
     rewrite Hu. cbn [bind]. destruct (Nat.ltb 1 _); eexists; reflexivity.
   - rewrite Hu. cbn [bind]. eexists. reflexivity.
